@@ -78,5 +78,12 @@ noncomputable instance : LawfulNum ℝ where
     simp only [NumOps.le, NumOps.lt, decide_eq_true_eq]
     exact le_iff_lt_or_eq
   isNaN_false := fun _ => rfl
+  le_mul_pos := fun a b c hc => by
+    simp only [NumOps.le]
+    congr 1
+    exact propext (mul_le_mul_iff_left₀ hc)
+  abs_mul_pos := fun a c hc => by
+    show |a * c| = |a| * c
+    rw [abs_mul, abs_of_pos hc]
 
 end NumbatModel.Qty
